@@ -218,13 +218,12 @@ func Attestation(quote []byte) (*tpmpb.Attestation, error) {
 
 	// Attempt to decode as a raw SEV-SNP attestation.
 	// Get the raw quote and try to extract from the certificates.
-	if at, err := abi.ReportCertsToProto(quote); err == nil {
+	if at, err := extractsev.ReportCertsToProto(quote); err == nil {
 		tpmat.TeeAttestation = &tpmpb.Attestation_SevSnpAttestation{SevSnpAttestation: at}
 		return tpmat, nil
 	}
 	// Attempt to decode as just the SEV-SNP certificate table.
-	certs := new(abi.CertTable)
-	if err := certs.Unmarshal(quote); err == nil {
+	if certs, err := extractsev.UnmarshalCertTable(quote); err == nil {
 		sev.Report = &spb.Report{Measurement: []byte{0}}
 		sev.CertificateChain = certs.Proto()
 		tpmat.TeeAttestation = &tpmpb.Attestation_SevSnpAttestation{SevSnpAttestation: sev}
